@@ -242,6 +242,31 @@ func registerExtlib(ex *Executor) {
 		return nil, cNext
 	}
 
+	// ToValidUTF8: the text with every run of invalid bytes replaced — an uninterpreted function of text and replacement
+	// (evaluated for literals); the result is a fresh slice
+	toValid := func(ex *Executor, st *State, cc *CallCtx, args []Val) (Val, ctl) {
+		isBytes := false
+		var s, r *smt.Term
+		if t, ok := args[0].(*smt.Term); ok {
+			s, r = t, args[1].(*smt.Term)
+		} else {
+			isBytes = true
+			s, _ = ex.bytesTerm(st, args[0])
+			r, _ = ex.bytesTerm(st, args[1])
+		}
+		var out *smt.Term
+		if s.IsConst() && r.IsConst() {
+			out = smt.StrC(strings.ToValidUTF8(s.S, r.S))
+		} else {
+			out = smt.App("uf_tovalidutf8", smt.String, s, r)
+		}
+		if isBytes {
+			return BytesV{S: out, Nil: smt.False}, cNext
+		}
+		return out, cNext
+	}
+	I["bytes.ToValidUTF8"] = toValid
+	I["strings.ToValidUTF8"] = toValid
 	I["bytes.NewReader"] = func(ex *Executor, st *State, cc *CallCtx, args []Val) (Val, ctl) {
 		t := ex.lookupType("bytes", "Reader")
 		var r *ReaderV
